@@ -83,7 +83,21 @@ fn run_universe(dag: &Dag, fam: &Family, oracles: Oracles, convergence: bool) ->
     hs.sort();
     hs.dedup();
     for h in &hs {
-        let mut ex = run_history(dag, &cmds, h);
+        let mut ex = match mcx::catch(|| run_history(dag, &cmds, h)) {
+            Ok(ex) => ex,
+            Err(p) => {
+                acc.executions += 1;
+                *acc.outcomes.entry("violation:panic".into()).or_default() += 1;
+                if acc.violations.iter().filter(|(kk, _, _)| kk.starts_with("panic:")).count() < 1 {
+                    acc.violations.push((
+                        format!("panic: {} / {}", dag.describe(), h.describe()),
+                        format!("the runtime panicked at {}: {p}", mcx::last_panic_location()),
+                        json!({"universe": dag.describe(), "history": h.describe()}),
+                    ));
+                }
+                continue;
+            }
+        };
         acc.executions += 1;
         acc.transitions += ex.transitions;
         acc.spills += ex.spill_writes;
